@@ -27,7 +27,9 @@ RULE = (
     "A case is non-trivial when the harness-side reference trajectory is finite, its round-off amplification "
     "(probe) is below the guard, and the position moves by more than 1e-6 (for 'energy': additionally the "
     "reference energy errors are in the asymptotic window; for 'volume': the finite-difference error bound is "
-    "below 1e-7). distinct = (sub-check, the complete generated case)."
+    "below 1e-7; for 'operator': histories step-accept/reject-step-...-step with the mass matrix given in the "
+    "specification or assigned afterwards; for 'hamiltonian': every query evaluated). "
+    "distinct = (sub-check, the complete generated case)."
 )
 ASSUMPTIONS = [
     "reference = textbook leapfrog in numpy; gradients of Normal / gamma(exp) / MVN targets are closed forms; for "
@@ -46,8 +48,15 @@ ASSUMPTIONS = [
     "difference Jacobian (steps 2.5e-4 and 1.25e-4 times max(1,|z_i|)) propagated through the inverse is < 1e-7",
     "energy: err(eps)/err(eps/2) (fixed integration time: L and 2L steps; also eps/2 vs eps/4) is asserted to lie "
     "in [3,5] only when the reference leapfrog's own signed ratio lies in [3.6,4.4], |reference err(finer)| >= 1e-9 * "
-    "max(1,|H0|) (>= 1e4 x round-off of H) and all three reference runs pass the guard; since the implementation "
-    "must agree with the reference to 1e-10*S this cannot fire on a correct integrator",
+    "max(1,|H0|) (>= 1e6 x round-off of H) and >= 1e-3 x the change of the final energy under the probe's 1e-9 "
+    "perturbations (so rounding, 1e5 times smaller, moves the errors by < 1%), and all three reference runs pass "
+    "the guard; an integrator that agrees with the reference up to round-off therefore cannot fail it",
+    "hamiltonian: Hamiltonian(...)(momentum=, inverse_mass_matrix= | mass_matrix=) is compared with -log density + "
+    "p'M^-1p/2 for sequences of 2-4 queries; queries at the position of the previous query are the known finding "
+    "C16-hamiltonian-call-stale and are generated separately from sequences that always move",
+    "operator_failure: gamma targets started at x in [2,7] with step sizes >= 0.1 overflow exp(x); an attempt may "
+    "be abandoned only where the reference trajectory for that momentum is itself outside the guard; when the "
+    "operator gives up (+inf) the position must be bit-identical to the one before the step",
     "operator: momenta are recorded by temporarily wrapping Hamiltonian.sample_momentum and "
     "LeapfrogIntegrator.__call__ from the harness (class attribute replaced and restored); the distribution of the "
     "momentum draw is not tested (statistical); torch.manual_seed comes from the case",
@@ -55,6 +64,7 @@ ASSUMPTIONS = [
 ]
 
 AMP_MAX = 1e3
+ETA = 1e-9
 SCALE_MAX = 1e4
 FD_H = 2.5e-4
 TOPOLOGIES = ["((A:0.1,B:0.1):0.1,C:0.1,D:0.1);", "((A:0.1,C:0.1):0.1,B:0.1,D:0.1);", "((A:0.1,D:0.1):0.1,B:0.1,C:0.1);"]
@@ -375,7 +385,8 @@ def _reference(c, orc, q0, p0, eps, L, minv):
         return ref, float("inf"), "guard:degenerate_eigenvalues"
     if not ref["scale"] <= SCALE_MAX:
         return ref, float("inf"), "guard:unstable"
-    amp = lf.amplification(q0, p0, eps, L, minv, orc.grad, base=ref)
+    amp, pert = lf.probe(q0, p0, eps, L, minv, orc.grad, base=ref, eta=ETA)
+    ref["pert"] = pert
     if not amp <= AMP_MAX:
         return ref, amp, "guard:unstable"
     return ref, amp, None
@@ -544,6 +555,9 @@ def body_energy(c):
         S = max(S, ref["scale"])
         refs.append(ref)
     eref = [(-orc.logp(r["q"]) + lf.kinetic(r["p"], minv)) - H0r for r in refs]
+    # how much the final energy moves under the probe's 1e-9 perturbations: rounding (1e-15..1e-14 relative)
+    # moves it 1e5..1e6 times less
+    hprobe = [abs((-orc.logp(r["pert"]["q"]) + lf.kinetic(r["pert"]["p"], minv)) - H0r - e) for r, e in zip(refs, eref)]
     b = Built(c)
     ham = build_hamiltonian(b)
     Hscale = max(1.0, abs(H0r))
@@ -573,7 +587,7 @@ def body_energy(c):
     asserted = 0
     for i in (0, 1):
         coarse, fine = eref[i], eref[i + 1]
-        if not (abs(fine) >= floor):
+        if not (abs(fine) >= floor and abs(fine) >= 1e-3 * max(hprobe[i], hprobe[i + 1])):
             _lab(res, "energy:below_floor")
             continue
         rr = coarse / fine
